@@ -261,7 +261,7 @@ let drv_world () =
                               orc := (fun i -> if i = k then FShort n else FNone)
          | "shortall", [n] -> let n = nat_of_int (int_of_string n) in orc := (fun _ -> FShort n)
          | _ -> orc := (fun _ -> FNone))
-    | "put" :: p :: rest -> setfs (env_put (!w).w_fs (str_tok p) (match rest with c :: _ -> str_tok c | [] -> []) false)
+    | "put" :: p :: rest | "putforeign" :: p :: rest -> setfs (env_put (!w).w_fs (str_tok p) (match rest with c :: _ -> str_tok c | [] -> []) false)
     | "append" :: p :: rest -> setfs (env_put (!w).w_fs (str_tok p) (match rest with c :: _ -> str_tok c | [] -> []) true)
     | ["putn"; p; n; b] ->
         let n = int_of_string n and b = int_of_string b in
